@@ -267,28 +267,33 @@ def strip_comments(tree):
     return tree
 
 
-def diff(a, b, path='', out=None, limit=12):
-    """Structural diff of two content trees -> list of 'path: a != b' strings."""
+def diff_items(a, b, path='', out=None, limit=40):
+    """Structural diff of two content trees -> list of (path, a, b)."""
     if out is None:
         out = []
     if len(out) >= limit:
         return out
     if type(a) is not type(b):
-        out.append(f'{path}: {a!r} ({type(a).__name__}) != {b!r} ({type(b).__name__})')
+        out.append((path, a, b))
     elif isinstance(a, dict):
         for k in sorted(set(a) | set(b)):
             if k not in a:
-                out.append(f'{path}.{k}: <absent> != {b[k]!r}')
+                out.append((f'{path}.{k}', '<absent>', b[k]))
             elif k not in b:
-                out.append(f'{path}.{k}: {a[k]!r} != <absent>')
+                out.append((f'{path}.{k}', a[k], '<absent>'))
             else:
-                diff(a[k], b[k], f'{path}.{k}', out, limit)
+                diff_items(a[k], b[k], f'{path}.{k}', out, limit)
     elif isinstance(a, list):
         if len(a) != len(b):
-            out.append(f'{path}: length {len(a)} != {len(b)}: {a!r} != {b!r}'[:400])
+            out.append((path + '#len', a, b))
         else:
             for i, (x, y) in enumerate(zip(a, b)):
-                diff(x, y, f'{path}[{i}]', out, limit)
+                diff_items(x, y, f'{path}[{i}]', out, limit)
     elif a != b:
-        out.append(f'{path}: {a!r} != {b!r}')
+        out.append((path, a, b))
     return out
+
+
+def diff(a, b, limit=12):
+    """-> list of 'path: a != b' strings"""
+    return [f'{p}: {x!r} != {y!r}'[:500] for p, x, y in diff_items(a, b, limit=limit)]
